@@ -168,16 +168,26 @@ def new_geometry(doc, st, r):
     return g
 
 
+PLONG = [0.3048006, 0.02540005, 1.000005, 12.34567, 0.1234567, 45.00001, 1234.567]
+
+
+def pval(r, lo, hi):
+    """a parameter value: mostly short, sometimes one that needs seven significant digits"""
+    if r.random() < 0.2:
+        return r.choice(PLONG)
+    return q(r, lo, hi)
+
+
 def color(r, n=None):
     n = n or r.choice([3, 4])
-    return tuple(r.choice([0, 1, 0.5, 0.25, 0.125, 1.0, 0.0]) for _ in range(n))
+    return tuple(r.choice([0, 1, 0.5, 0.25, 0.125, 1.0, 0.0, 0.1234567, 0.3333333]) for _ in range(n))
 
 
 def new_light(st, r, kind=None):
     from collada import light
     kind = kind or r.choice(['directional', 'ambient', 'point', 'spot'])
     i = st.fresh('light')
-    o = lambda: r.choice([None, q(r, 0, 64)])
+    o = lambda: r.choice([None, pval(r, 0, 64)])
     if kind == 'directional':
         return light.DirectionalLight(i, color(r))
     if kind == 'ambient':
@@ -189,7 +199,7 @@ def new_light(st, r, kind=None):
 
 def camera_params(r, persp):
     a, b = ('xfov', 'yfov') if persp else ('xmag', 'ymag')
-    v = lambda: q(r, 1, 640)
+    v = lambda: pval(r, 1, 640)
     combo = r.choice([(a,), (b,), (a, b), (a, 'aspect_ratio'), (b, 'aspect_ratio')])
     d = {a: None, b: None, 'aspect_ratio': None}
     for k in combo:
@@ -214,13 +224,14 @@ def new_effect(doc, st, r):
         sf = material.Surface(st.fresh('surf'), img, r.choice([None, 'A8R8G8B8']))
         sm = material.Sampler2D(st.fresh('samp'), sf, r.choice([None, 'LINEAR']), r.choice([None, 'NEAREST']))
         params = [sf, sm]
-        kw[r.choice(['diffuse', 'emission', 'ambient'])] = material.Map(sm, r.choice(['UV', 'TEX0']))
+        kw[r.choice(['diffuse', 'emission', 'ambient', 'specular', 'transparent', 'reflective', 'shininess'])] = \
+            material.Map(sm, r.choice(['UV', 'TEX0']))
     for prop in ('diffuse', 'specular', 'emission', 'ambient', 'reflective', 'transparent'):
         if prop not in kw and r.random() < 0.5:
             kw[prop] = color(r, 4)
     for prop in ('shininess', 'reflectivity', 'transparency', 'index_of_refraction'):
         if r.random() < 0.4:
-            kw[prop] = q(r, 0, 160)
+            kw[prop] = pval(r, 0, 160)
     if r.random() < 0.3:
         kw['opaque_mode'] = material.OPAQUE_MODE.RGB_ZERO
     if params and r.random() < 0.4:
@@ -246,7 +257,7 @@ def new_transform(r, kind=None):
     from collada import scene
     kind = kind or r.choice(['translate', 'rotate', 'scale', 'matrix', 'lookat'])
     if kind == 'translate':
-        return scene.TranslateTransform(q(r), q(r), q(r))
+        return scene.TranslateTransform(pval(r, -48, 48), q(r), pval(r, -48, 48))
     if kind == 'rotate':
         ax = r.choice([(1.0, 0.0, 0.0), (0.0, 1.0, 0.0), (0.0, 0.0, 1.0)])
         return scene.RotateTransform(ax[0], ax[1], ax[2], float(r.choice([0, 30, 45, 90, 180, -90, 22.5])))
@@ -613,7 +624,10 @@ def apply_op(doc, st, op, out):
             srcs = [s for s in g.sourceById.values() if isinstance(s, source.FloatSource)]
             if srcs:
                 s = srcs[op['pos'] % len(srcs)]
-                s.data = numpy.array([qlong(r) for _ in range(s.data.size)], dtype=numpy.float32).reshape(s.data.shape)
+                extra_rows = r.choice([0, 0, 1, 3])
+                ncomp = len(s.components)
+                s.data = numpy.array([qlong(r) for _ in range(s.data.size + extra_rows * ncomp)],
+                                     dtype=numpy.float32).reshape((-1, ncomp))
         elif how == 'revertex':
             # every primitive is replaced by primitives over a new position source: Geometry.save
             # has to re-point <vertices>
@@ -692,7 +706,8 @@ def apply_op(doc, st, op, out):
                 mn.target = doc.materials[op['pos2'] % len(doc.materials)]
             elif how.startswith('bvi_'):
                 list_edit(mn.inputs, dict(op, how=how[4:]), r,
-                          lambda: (r.choice(['TEX0', 'UV', 'CH1', 'CH2']), 'TEXCOORD', str(r.randint(0, 3))))
+                          lambda: (r.choice(['TEX0', 'UV', 'CH1', 'CH2']), 'TEXCOORD',
+                                   None if r.random() < 0.2 else str(r.randint(0, 3))))
         return
     if t == 'attr':
         what = op['what']
@@ -700,7 +715,7 @@ def apply_op(doc, st, op, out):
             from collada import light
             l = doc.lights[op['pos'] % len(doc.lights)]
             l.color = color(r)
-            o = lambda: r.choice([None, q(r, 0, 64)])
+            o = lambda: r.choice([None, pval(r, 0, 64)])
             if isinstance(l, (light.PointLight, light.SpotLight)):
                 l.constant_att, l.linear_att, l.quad_att = o(), o(), o()
             if isinstance(l, light.PointLight):
@@ -724,8 +739,8 @@ def apply_op(doc, st, op, out):
             for prop in ('diffuse', 'specular', 'ambient'):
                 if not isinstance(getattr(e, prop), material.Map) and r.random() < 0.6:
                     setattr(e, prop, color(r, 4))
-            if r.random() < 0.5:
-                e.shininess = q(r, 0, 160)
+            if r.random() < 0.5 and not isinstance(e.shininess, material.Map):
+                e.shininess = pval(r, 0, 160)
             if r.random() < 0.3:
                 e.shadingtype = r.choice(['phong', 'lambert', 'blinn', 'constant'])
             e.double_sided = not e.double_sided
@@ -780,7 +795,8 @@ def apply_op(doc, st, op, out):
             a.revision = r.choice([None, '1.0'])
             a.upaxis = r.choice([asset.UP_AXIS.X_UP, asset.UP_AXIS.Y_UP, asset.UP_AXIS.Z_UP])
             if r.random() < 0.5:
-                a.unitname, a.unitmeter = r.choice([('meter', 1.0), ('inch', 0.0254), ('centimeter', 0.01)])
+                a.unitname, a.unitmeter = r.choice([('meter', 1.0), ('inch', 0.0254), ('centimeter', 0.01),
+                                                    ('survey_foot', 0.3048006), ('survey_inch', 0.02540005)])
             k = r.random()
             if k < 0.3:
                 a.contributors.insert(r.randint(0, len(a.contributors)),
@@ -1283,6 +1299,15 @@ def close(a, b):
     return abs(a - b) <= 1e-6 * max(abs(a), abs(b)) + 1e-12
 
 
+def matrix_tol(transforms, *mats):
+    """float32 products lose about 1e-7 of the largest intermediate term: the tolerance follows
+    the product of the transforms' magnitudes (cancellation can make the result itself small)"""
+    P = 1.0
+    for t in transforms:
+        P *= max([1.0] + [abs(x) for x in t.get('values', [])])
+    return 1e-6 * max([P] + [abs(x) for m in mats for x in m]) + 1e-6
+
+
 def diff(a, b, path=''):
     """first difference between two snapshot values: (path, a, b) or None.  Lists of labelled
     members are compared through their label sequences first."""
@@ -1297,6 +1322,13 @@ def diff(a, b, path=''):
             if k in ('label',):
                 continue
             if k not in b:
+                continue
+            if k == 'matrix' and isinstance(a[k], list) and isinstance(b[k], list) and len(a[k]) == len(b[k]) == 16:
+                # a derived float32 product: tolerance relative to the largest entry
+                tol = matrix_tol(a.get('transforms', []), a[k], b[k])
+                bad = [i for i in range(16) if abs(a[k][i] - b[k][i]) > tol]
+                if bad:
+                    return ('%s.matrix[%d]' % (path, bad[0]), a[k][bad[0]], b[k][bad[0]])
                 continue
             d = diff(a[k], b[k], path + '.' + k)
             if d:
@@ -1389,6 +1421,9 @@ def check_file_vs_model(pid, model, filesnap):
         for s in g['sources']:
             if 'data' in s and not (s['count'] == len(s['data']) and s['array_ok']):
                 fail('attribute', 'geometries.sources.count', 'float_array count/accessor source of %s disagree with the data' % s['id'])
+            if 'data' in s and s['components'] and not (s['stride'] == len(s['components'])
+                                                        and s['acount'] * s['stride'] == len(s['data'])):
+                fail('attribute', 'geometries.sources.accessor', 'accessor count/stride of %s disagree with the data' % s['id'])
         for p in g['primitives']:
             for src in p.get('direct_vertex', []):
                 fail('reference', 'geometries.primitives.vertices-indirection',
@@ -1441,8 +1476,9 @@ def check_reload_vs_model(pid, model, reloaded, node_products):
             return
         want = node_products.get(path)
         if want is not None:
+            tol = matrix_tol(n.get('transforms', []), want, n['matrix'])
             for x, y in zip(want, n['matrix']):
-                if abs(x - y) > 1e-4 * max(1.0, abs(x)):
+                if abs(x - y) > tol:
                     fail('matrix', 'node.matrix', 'reloaded matrix of %s is not the product of its transform list: %r vs %r'
                          % (n['label'], short(n['matrix']), short(want)))
                     break
